@@ -119,7 +119,7 @@ pub fn generate(rng: &mut Rng, thorough: bool) -> Scenario {
     let style = rng.weighted(&[50, 25, 25]);
     let max_ops = if thorough { 26 } else { 14 };
     // a share of the runs changes the OS thread under the runtime's feet
-    let migrate = rng.permille(120);
+    let migrate = rng.permille(100);
     let mut clients = Vec::new();
     for _ in 0..n_clients {
         let n = rng.range(3, max_ops);
@@ -165,7 +165,7 @@ pub fn generate(rng: &mut Rng, thorough: bool) -> Scenario {
                 },
             };
             ops.push(op);
-            if migrate && rng.permille(150) {
+            if migrate && rng.permille(350) {
                 ops.push(Op::Migrate);
             }
         }
